@@ -29,12 +29,53 @@ var hosts = []string{"127.0.0.1", "127.0.0.1:8554", "[::1]:8554", "[::1]", "loca
 
 var userinfos = []string{"user", "user:pass", "admin:12345", "user:", ":pass", "us%40er:p%3Ass", "a-b_c.d~e:x!y$z&w'(v)*u+t,s;r=q", "user:pa%23ss", "u:p%20w", "admin:p%2Fw%3Fx", "j%C3%B6rg:gr%C3%BC%C3%9F"}
 
+// randToken: one unit of a random segment / query value.
+func (g gen) randToken(query bool) string {
+	const unreserved = "abcdefghijklmnopqrstuvwxyzABCDEFGHIJKLMNOPQRSTUVWXYZ0123456789-._~"
+	const subdelims = "!$&'()*+,;=:@"
+	switch n := g.r.IntN(20); {
+	case n < 9:
+		return string(unreserved[g.r.IntN(len(unreserved))])
+	case n < 13:
+		return string(subdelims[g.r.IntN(len(subdelims))])
+	case n < 16:
+		hexd := "0123456789ABCDEF"
+		if g.chance(0.3) {
+			hexd = "0123456789abcdef"
+		}
+		b := g.r.IntN(256)
+		return "%" + string(hexd[b>>4]) + string(hexd[b&15])
+	case n == 16:
+		return "trackID=" + strconv.Itoa(g.r.IntN(30))
+	case n == 17:
+		if query {
+			return g.pick([]string{"/", "?", "/trackID=", "//", "/?"})
+		}
+		return g.pick([]string{"[", "]", "[0]", "{", "}", "|", "^", "`", "\"", "<", ">", " ", "\\"})
+	case n == 18:
+		return g.pick([]string{"é", "ü", "日本", "\xff", "\xc3"})
+	default:
+		return g.pick(plainWords)
+	}
+}
+
+func (g gen) randSegment(query bool) string {
+	n := 1 + g.r.IntN(6)
+	var sb strings.Builder
+	for i := 0; i < n; i++ {
+		sb.WriteString(g.randToken(query))
+	}
+	return sb.String()
+}
+
 func (g gen) segment() string {
-	switch n := g.r.IntN(10); {
+	switch n := g.r.IntN(12); {
 	case n < 5:
 		return g.pick(plainWords)
 	case n < 9:
 		return g.pick(trickySegments)
+	case n < 11:
+		return g.randSegment(false)
 	default:
 		// concatenation of two
 		return g.pick(plainWords) + g.pick(trickySegments)
@@ -88,9 +129,12 @@ func (g gen) rawQuery(valid bool) (string, bool) {
 	k := 1 + g.r.IntN(3)
 	var parts []string
 	for i := 0; i < k; i++ {
-		if g.chance(0.1) {
+		switch {
+		case g.chance(0.1):
 			parts = append(parts, g.pick(queryKeys))
-		} else {
+		case g.chance(0.25):
+			parts = append(parts, g.pick(queryKeys)+"="+g.randSegment(true))
+		default:
 			parts = append(parts, g.pick(queryKeys)+"="+g.pick(queryVals))
 		}
 	}
